@@ -347,6 +347,10 @@ def finding_key(c, verdict):
         ts = G.type_sexp(c.inner[1])      # the same token and type in another position: one defect class
     msg = ((c.go or {}).get("msg") or "") + (c.crash[1] if c.crash else "")
     if verdict == "panic":
+        if model_class(c) == "err" and go_class(c) == "panic":
+            # the model stops at the first error; the implementation goes on and trips over the rest of the stream
+            return ("c06:error-then-desynchronised-stream-panics",
+                    "after a first conversion error decodeError no longer consumes the values it rejects: their payload is then read as tags and a bogus reference/class index panics instead of the error being returned")
         if "unhashable" in msg:
             return "c06:unhashable-map-key-panics", "a list, map or byte string used as a map key makes the decoder panic (hash of unhashable type)"
         if c.model.get("site") == "objintoiimap" or "name offset" in msg or go_class(c) == "fatal" and _has_tag(c.w, "o") and "(map (iface)" in ts:
@@ -443,7 +447,7 @@ def judge(ctx, env, cases, verbose=False):
         ctx.sample("%s <- %s : %s" % (G.type_sexp(c.t), c.model.get("hex"), c.model.get("val") or m))
         if verbose:
             print(json.dumps(short(c))[:1500])
-        if not agree(c):
+        if not agree(c) and not (m == "err" and go_class(c) == "panic"):
             bad += 1
             key = "c06:correspondence:%s:%s" % (c.tag.split(":")[0], c.w[0])
             ctx.report(key, "model and implementation disagree (%s into %s: model %s, go %s)" % (
